@@ -50,12 +50,14 @@ inductive Err where
   | tonumtype    -- int/to-number: not a boxed integer
   | tobytestype  -- int/to-bytes: not a boxed integer
   | arity        -- wrong number of arguments to a method
+  | badslot      -- janet_getnumber: "bad slot #i, expected number, got ..." (math/gcd ... on a non-number)
   deriving DecidableEq, Repr
 
 def Err.name : Err → String
   | .divzero => "divzero" | .minneg => "minneg" | .cvts => "cvts" | .cvtu => "cvtu" | .nomethod => "nomethod"
   | .range32s => "range32s" | .range32u => "range32u" | .rhs32 => "rhs32" | .tonum => "tonum"
   | .tonumtype => "tonumtype" | .arity => "arity" | .tobytestype => "tobytestype"
+  | .badslot => "badslot"
 
 /-- Outcome of a C-level operation.  `ub` = the C abstract machine gives no meaning to the operation that the source
     performs at this point (signed `/` or `%` of INT64_MIN by -1: SIGFPE on x86; conversion of an out-of-range double to
